@@ -150,7 +150,7 @@ RULES = {
     "tl_setitem": fd(tl=I, i=I, t=I),
     "tl_setslice": fd(tl=I, i=st.integers(0, 5), j=st.integers(0, 7), src=SRC),
     "tl_read": fd(tl=I, doc=DOC, off=st.integers(0, 3)),
-    "tl_new_tree": fd(tl=I, variant=st.sampled_from(["empty", "clone", "clone", "foreign_kw"]), t=I, ns=NSSEL),
+    "tl_new_tree": fd(tl=I, variant=st.sampled_from(["empty", "clone", "clone", "foreign_kw", "seed_node", "seed_node"]), t=I, ns=NSSEL),
     "tl_migrate": fd(tl=I, ns=NSSEL, unify=st.sampled_from([True, True, False]), route=st.sampled_from(["migrate", "assign"])),
     "tl_reconstruct": fd(tl=I, unify=B),
     "tl_update": fd(tl=I),
@@ -177,6 +177,9 @@ RULES = {
     "cm_clone": fd(m=I, ns=NSSEL),
     "tree_migrate": fd(t=I, ns=NSSEL, unify=st.sampled_from([True, True, False])),
     "tree_clone": fd(t=I, ns=NSSEL),
+    "tree_from_nodes": fd(t=I, mix=I, ns=NSSEL, give_ns=B),
+    "migrate_shared_memo": fd(m=I, ns=NSSEL, unify=st.sampled_from([True, True, False]), extra=st.lists(LBL, min_size=0, max_size=2),
+                              order=B),
     "rename_taxon": fd(n=I, k=I, l=LBL, mode=st.integers(0, 2)),
 }
 
@@ -430,6 +433,49 @@ class Interp(object):
 
         fill(tree.seed_node, spec)
         return tree
+
+    def build_nodes(self, spec, target, mix):
+        """Hand-built Node structure (no Tree yet).  Every labelled node gets, by the digits of `mix`, a member of the
+        target namespace with that label (if there is one), a taxon of a pool namespace, or a brand-new Taxon that is in no
+        namespace at all.  -> root node"""
+        d = self.d
+        state = [mix]
+        K = keyfn(target) if target is not None else (lambda x: x)
+
+        def tax(li):
+            label = POOL[li]
+            sel = state[0] % 3
+            state[0] //= 3
+            if sel == 0 and target is not None:
+                for t in target:
+                    if K(t.label) == K(label):
+                        self.ctx.cls("seed_node_taxon:member_of_target")
+                        return t
+            if sel == 1:
+                fns = self.pool_ns[state[0] % 3]
+                if fns is not target:
+                    t = fns.require_taxon(label)
+                    self.resnap(fns)
+                    self.ctx.cls("seed_node_taxon:member_of_other_namespace")
+                    return t
+            self.ctx.cls("seed_node_taxon:in_no_namespace")
+            return d.Taxon(label=label)
+
+        def fill(node, sp):
+            if isinstance(sp, int):
+                node.taxon = tax(sp)
+                return
+            if sp[0] >= 0:
+                node.taxon = tax(sp[0])
+            for c in sp[1:]:
+                fill(node.new_child(), c)
+
+        root = d.Node()
+        fill(root, spec)
+        return root
+
+    def node_slots(self, root):
+        return [nd.taxon for nd in root.preorder_iter()]
 
     def build_matrix(self, rows, ns, how):
         m = self.mtype(taxon_namespace=ns)
@@ -1026,7 +1072,17 @@ class Interp(object):
             if other is L.ns:
                 return self.skip("same_ns")
             return self.expect_error(TypeError, "new_tree(taxon_namespace=<other>)", L.tl.new_tree, taxon_namespace=other)
-        if v == "clone" and self.loose:
+        if v == "seed_node":
+            # a tree around an existing node structure: its taxa are kept as they are and must become members
+            root = self.build_nodes(expand_mk(a["t"])["spec"], L.ns, a["t"] // 2 + a["ns"])
+            old = self.node_slots(root)
+            pre = list(L.ns)
+            t = self.lib(L.tl.new_tree, seed_node=root)
+            self.V(t.taxon_namespace is L.ns and t.seed_node is root, "member_namespace_identity", "new_tree(seed_node=...)")
+            new = self.slots(t)
+            self.check_mapping(self.pairs_of(old, new), L.ns, pre, "add")
+            self.ctx.cls("tree_around_seed_node:TreeList.new_tree")
+        elif v == "clone" and self.loose:
             T = self.loose[a["t"] % len(self.loose)]
             t = self.lib(L.tl.new_tree, T.tree)
             self.V(t is not T.tree and t.taxon_namespace is L.ns, "member_namespace_identity", "new_tree(clone)")
@@ -1568,10 +1624,13 @@ class Interp(object):
             return self.skip("empty")
         cs = X.is_case_sensitive if X is not None else False
         K = (lambda s: s) if cs else (lambda s: str(s).lower())
+        collide = False
         for M in self.ds_mats:
             ks = [K(t.label) for t in M.rows.values()]
             if len(set(ks)) != len(ks):
-                return self.skip("matrix_rows_would_collide")
+                collide = True
+        if collide and (any(c is self.tlists[0] for c in self.ds_lists) or any(c is self.mats[0] for c in self.ds_mats)):
+            return self.skip("matrix_rows_would_collide")
         pre = list(X) if X is not None else []
         known = set(self.nss)
         old_l = [[m.slots for m in L.members] for L in self.ds_lists]
@@ -1583,10 +1642,25 @@ class Interp(object):
         kw = {}
         if not a["attach"]:
             kw["attach_taxon_namespace"] = False
-        if X is not None:
-            self.lib(ds.unify_taxon_namespaces, X, **kw)
+        args = (X,) if X is not None else ()
+        if collide:
+            # two rows of one matrix would end on one taxon: the documented refusal, or nothing may be lost
+            self.ctx.cls("ds_unify:matrix_rows_collide")
+            no, _ = self.refused(self.err.TaxonNamespaceReconstructionError, ds.unify_taxon_namespaces, *args, **kw)
+            if no:
+                # half-unified data set: drop it and its components from the model, start a new one
+                for c in self.ds_lists:
+                    self.tlists.remove(c)
+                for c in self.ds_mats:
+                    self.mats.remove(c)
+                self.ds = self.d.DataSet()
+                self.ds_lists, self.ds_mats, self.ds_nss = [], [], []
+                self.ds_attached, self.ds_unified = None, False
+                for r in list(self.nss.values()):
+                    r.taxa = list(r.ns)
+                return
         else:
-            self.lib(ds.unify_taxon_namespaces, **kw)
+            self.lib(ds.unify_taxon_namespaces, *args, **kw)
         if X is None:
             cur = list(ds.taxon_namespaces)
             V(len(cur) == 1 and id(cur[0]) not in known, "dataset_unify_new_namespace",
@@ -1870,6 +1944,95 @@ class Interp(object):
             self.check_mapping(pairs, X, pre, "unify", universe=self.universe_of(self.nrec(T.ns).taxa), allow_extra=True)
         self.add_loose(TRec(t, X, new, self.stepno))
 
+
+    def op_tree_from_nodes(self, a):
+        """Tree(seed_node=root[, taxon_namespace=ns]): the node taxa are kept and must all be members of the tree's namespace
+        (the given one, or a new one holding exactly them)."""
+        X = self.pick_ns(a["ns"]) if a["give_ns"] else None
+        root = self.build_nodes(expand_mk(a["t"])["spec"], X, a["mix"])
+        old = self.node_slots(root)
+        known = set(self.nss)
+        if X is not None:
+            pre = list(X)
+            t = self.lib(self.d.Tree, seed_node=root, taxon_namespace=X)
+            self.V(t.taxon_namespace is X, "member_namespace_identity", "Tree(seed_node=..., taxon_namespace=ns)")
+            self.ctx.cls("tree_around_seed_node:Tree(given_namespace)")
+        else:
+            pre = []
+            t = self.lib(self.d.Tree, seed_node=root)
+            X = t.taxon_namespace
+            self.V(id(X) not in known, "new_tree_reused_unrelated_namespace")
+            self.nss[id(X)] = NRec(X)
+            self.nss[id(X)].taxa = []
+            self.ctx.cls("tree_around_seed_node:Tree(new_namespace)")
+        self.V(t.seed_node is root, "seed_node_kept")
+        new = self.slots(t)
+        self.check_mapping(self.pairs_of(old, new), X, pre, "add")
+        self.add_loose(TRec(t, X, new, self.stepno))
+
+    # -- tree list + matrix over one namespace, migrated with one shared taxon_mapping_memo -------------------------
+    def op_migrate_shared_memo(self, a):
+        """The typical data set by hand: a tree list whose tree spans the taxa of a matrix (same namespace); both are moved
+        to another namespace with one shared taxon_mapping_memo (documented parameter).  Same source taxon => same target
+        taxon across both objects; two rows that end on one taxon must be refused, never merged silently."""
+        M = self.pick_mat(a["m"])
+        X = self.pick_ns(a["ns"])
+        S = M.ns
+        if X is S:
+            return self.skip("same_ns")
+        protected = M is self.mats[0] or any(M is x for x in self.ds_mats)
+        unify = a["unify"]
+        collide = unify and self.rows_collide(M, X)
+        if collide and protected:
+            return self.skip("matrix_rows_would_collide")
+        d = self.d
+        taxa = list(M.rows.values())
+        for li in a["extra"]:
+            taxa.append(S.require_taxon(POOL[li]))
+        self.resnap(S)
+        if len(taxa) < 2:
+            return self.skip("too_few_taxa")
+        tree = d.Tree(taxon_namespace=S)
+        inner = tree.seed_node.new_child()
+        for k, t in enumerate(taxa):
+            (inner if k % 2 else tree.seed_node).new_child().taxon = t
+        if inner.num_child_nodes() == 0:
+            tree.seed_node.remove_child(inner)
+        tl = d.TreeList(taxon_namespace=S)
+        tl.append(tree)
+        old_slots = self.slots(tree)
+        old_rows = dict(M.rows)
+        pre = list(X)
+        memo = {}
+        Recon = self.err.TaxonNamespaceReconstructionError
+        first, second = (tl, M.m) if a["order"] else (M.m, tl)
+        self.ctx.cls("migrate_shared_memo:%s:%s" % ("unify" if unify else "nounify", "rows_collide" if collide else "rows_distinct"))
+
+        def call():
+            first.migrate_taxon_namespace(X, unify_taxa_by_label=unify, taxon_mapping_memo=memo)
+            second.migrate_taxon_namespace(X, unify_taxa_by_label=unify, taxon_mapping_memo=memo)
+
+        if collide:
+            no, _ = self.refused(Recon, call)
+            if no:
+                self.mats.remove(M)
+                for r in self.nss.values():
+                    r.taxa = list(r.ns)
+                return
+        else:
+            self.lib(call)
+        self.V(tl.taxon_namespace is X and tree.taxon_namespace is X and M.m.taxon_namespace is X, "member_namespace_identity",
+               "objects migrated with a shared memo")
+        new_rows = self.read_rows(M.m)
+        self.V(set(new_rows) == set(old_rows), "matrix_rows_silently_dropped_or_merged",
+               lambda: "rows %r -> %r" % (sorted(old_rows), sorted(new_rows)))
+        new_slots = self.slots(tree)
+        pairs = self.pairs_of(old_slots, new_slots) + [(o, o.label, new_rows[c]) for c, o in old_rows.items()]
+        M.ns, M.rows = X, new_rows
+        self.check_mapping(pairs, X, pre, "unify" if unify else "nounify")
+        M.modified = self.stepno
+        if len(self.tlists) < MAX_LISTS + 2:
+            self.tlists.append(LRec(tl, X, [TRec(tree, X, new_slots, self.stepno)], self.stepno))
 
     # -- taxon relabelling ---------------------------------------------------------------------------------------
     def op_rename_taxon(self, a):
